@@ -236,11 +236,13 @@ def _do_noise(fr, spy, op, c, V, tag, empty_state):
     try:
         if op['api'] == 'add_noise':
             kw = {}
+            # (sub-box) the parameters as numpy fixed-width scalars, as they come out of an array or a header
+            cast = (lambda v: np.dtype(op['ntype']).type(v)) if op.get('ntype') else (lambda v: v)
             if op.get('x_std') is not None:
-                kw['x_std'] = op['x_std']
+                kw['x_std'] = cast(op['x_std'])
             if op.get('x_min') is not None:
-                kw['x_min'] = op['x_min']
-            noise = fr.add_noise(op['x_mean'], noise_type=nt, **kw)
+                kw['x_min'] = cast(op['x_min'])
+            noise = fr.add_noise(cast(op['x_mean']), noise_type=nt, **kw)
         else:
             kw = {}
             if op['tables'] != 'none':
@@ -597,6 +599,12 @@ def _request_ops(tier):
                 if xmin is not None and xmin == 0.0 and rel != 0.0:
                     continue
                 ops.append(dict(api='add_noise', noise_type=nt, x_mean=xm, x_std=xs, x_min=xmin))
+    for xm, ty in ((300, 'int16'), (200, 'uint8'), (100, 'int8'), (100000, 'int32'), (7, 'int64'), (5.5, 'float32'), (5.5, 'float16')):
+        ops.append(dict(api='add_noise', noise_type='chi2', x_mean=xm, ntype=ty))
+    for xm, xs, xmin, ty in ((100, 20, None, 'int8'), (100, 20, 90, 'int8'), (200, 15, None, 'uint8'), (300, 25, 280, 'int16'),
+                             (100000, 3000, None, 'int32'), (10.0, 2.0, 9.0, 'float32')):
+        for nt in ('gaussian', 'normal'):
+            ops.append(dict(api='add_noise', noise_type=nt, x_mean=xm, x_std=xs, x_min=xmin, ntype=ty))
     # argument combinations outside the documented ones: only "returned == added" is demanded if they return
     ops.append(dict(api='add_noise', noise_type='gaussian', x_mean=3.0, expect='undecided'))
     ops.append(dict(api='add_noise', noise_type='gaussian', x_mean=3.0, x_min=1.0, expect='undecided'))
